@@ -140,6 +140,7 @@ contract(AC + "._update_state#other",
 G = {CMD + "Command._message_id": "int"}
 
 contract(DEV + "._send_command",
+         verified_by=["msmart.base_device.Device._send_command#transport"],
          assumed="device-layer view of Device._send_command (the LAN object is abstracted away); the body is verified against the contract Device._send_command#transport, whose clauses imply this one except for cancellation and the frame of self._lan",
          params={"self": "obj:" + AC, "command": "obj:" + CMD + "Command"}, globals=G,
          rtype="list:bytes",
